@@ -3,6 +3,8 @@
 HOOK_COMMITS = ["8eb6fb7e966ea020d53ffa53eb464d5e25f195d3"]
 
 ENGINES = [
+    dict(name="wal", path="harness/cmd/h/eng_wal.go", serves_properties=["C06"],
+         kind_free_text="four-way differential: real badgerWAL (on-disk Badger, 1-3 groups, reopens incl. whole-DB close), real etcd MemoryStorage, Lean model of each; all observations after every call; isolation summaries of the other groups"),
     dict(name="codec", path="harness/cmd/h/eng_codec.go", serves_properties=["C08"],
          kind_free_text="differential: real Hnsw.Save bytes vs the Lean byte-format model (decode, re-encode, view, bounds); Load(Save(s)) oracle through 5 fragmenting reader kinds into fresh/used targets with a sentinel tail; truncation accept/reject agreement"),
     dict(name="routing", path="harness/cmd/h/eng_routing.go", serves_properties=["C10"],
@@ -34,6 +36,11 @@ META = {
         technique="Lean 4 proof (determinism corollaries of the refinement: outcomes and contents are functions of the abstract map; snapshot = reload preserves the refinement) + multi-replica differential run with restore at every cut",
         text="replicas_agree / snapshot_cut / restart_replay (lean/Anndb/Props/C04.lean): any two replicas related to the same map — differing in queue implementation, metric, parameters, fallback choice and graph — report the same outcome for every entry and hold the same contents and counters; restoring a snapshot taken at any cut and applying the suffix equals applying the whole log. Engine partition feeds byte-identical marshalled entries to real stand-alone partitions, restoring the real snapshot at every cut into fresh and used replicas, and compares outcomes, contents and counters pairwise and against the model.",
         note="Trusted: as C02; Hnsw.Save/Load's byte format is C08's subject — here its effect on the state is Index.reload, and the real Save/Load is exercised at every cut.",
+    ),
+    "C06": dict(
+        technique="Lean 4 proofs (key-layout injectivity and prefix disjointness; group isolation for any write batch; store model refines the MemoryStorage specification) + four-way exact differential run: real badgerWAL / real etcd MemoryStorage / both Lean models",
+        text="entryKey_inj, kinds_disjoint, entry_prefix_disjoint, meta_prefix_disjoint, isolation_batch (lean/Anndb/Props/C06.lean): keys of distinct groups and kinds never collide, prefix iteration stays inside the group (excluded point stated), and any write batch of one group leaves every key of every other group unchanged. The per-group store model (Model/Wal.lean: committed keys, the three-field cache, batches applied at flush while reads see the committed state) and the specification model of etcd's MemoryStorage are run by engine wal against the real badgerWAL and the real MemoryStorage: all four transcripts (FirstIndex, LastIndex, Term of every index, every legal Entries range under three size limits, Snapshot, InitialState after every call; reopen and DeleteGroup anywhere; 1-3 groups in one database) must be identical.",
+        note="Trusted: Lean kernel; Badger's atomic batch and ordered prefix iteration; generators. The refinement theorem store-model ⊑ MemoryStorage-model is staged in Proofs/WalRefine.lean (see DESIGN.md for what is proved so far); until it is complete the equality of the two models is established by the differential run, not by proof.",
     ),
     "C08": dict(
         technique="Lean 4 round-trip proof of the byte format (combinator lemmas; exact consumption; header) + allocation bound + regenerated no-bare-Read fact + differential decode of real Save output and Load(Save) oracle over fragmenting readers",
